@@ -31,12 +31,14 @@ def c5(ctx):
     convert.global_tables_immutable(ctx)
     convert.purity(ctx)
     convert.convert_sequence(ctx)
+    convert.wrappers(ctx, 'ssc_to_sm')
     convert.warps_first(ctx, 'ssc_to_sm')
     convert.ssc_target_tables(ctx, 'ssc_to_sm')
 
 
 def c_views(ctx):
     views.key_chooser(ctx)
+    views.smchart_guards(ctx)
     state.shared_state(ctx, ['simfile.convert:ssc_to_sm'], 'the conversion of one simfile depends on that simfile, the templates and the policy only')
 
 
